@@ -591,6 +591,24 @@ func c04Iteration(c *Ctx, impls []*types.Named, rule string) {
 		}
 		if sharedWalk {
 			c.R.okay(rule, "BufferedPaginatedStore/ForEach-vs-Bins", funcName(fe), c.fpos(fe), "the two iterators over (sorted buffer ⊕ pages) yield the same (index, count) terms under the same path conditions", "one shared walk; the producer sends what it is given and never stops")
+			// … and the walk merges the pages with the buffer IN ORDER: each iterator sorts the buffer before the walk (in
+			// the iterator itself, or first thing in the shared walk)
+			w, _ := walkDelegate(fe, 1)
+			sorts := func(f *ssa.Function) bool {
+				if f == nil || len(f.Blocks) == 0 {
+					return false
+				}
+				for _, b := range f.Blocks {
+					for _, in := range b.Instrs {
+						if call, ok := in.(*ssa.Call); ok && pr.isSortCall(newTermCtx(c.P), call) {
+							return b == f.Blocks[0] || b.Dominates(f.Blocks[len(f.Blocks)-1]) || len(b.Preds) <= 1
+						}
+					}
+				}
+				return false
+			}
+			sf, sb := sorts(fe) || sorts(w), sorts(bf) || sorts(bf.AnonFuncs[0]) || sorts(w)
+			c.R.check(sf && sb, rule, "BufferedPaginatedStore/iterators-sort-first", funcName(bf), c.fpos(bf), "ForEach and Bins sort the buffer before merging it with the pages", fmt.Sprintf("ForEach sorts=%v Bins sorts=%v (shared walk)", sf, sb))
 		}
 		if fe != nil && bf != nil && len(bf.AnonFuncs) == 1 && !sharedWalk {
 			condSig := func(p *Path, skip func(t *Term) bool) string {
